@@ -191,9 +191,12 @@ class Folder:
                 # a trait method called inside a provided method (unresolved in the generic body): dispatch on the folded receiver's type
                 recv = self.ev(t[2][0], env, bind, depth)
                 r0 = recv[1] if recv[0] == "ref" else recv
-                if r0[0] == "agg" and r0[1] == "adt" and "::" in name:
+                rty = r0[2] if (r0[0] == "agg" and r0[1] == "adt") else None
+                if rty is None and r0[0] == "const" and isinstance(r0[1], tuple) and r0[1] and isinstance(r0[1][0], tuple) and r0[1][0][0] == "adt":
+                    rty = r0[1][0][1]           # a unit / constant struct receiver (e.g. `Utc`)
+                if rty is not None and "::" in name:
                     tr, meth = name.rsplit("::", 1)
-                    cand = "<%s as %s>::%s" % (r0[2], tr, meth)
+                    cand = "<%s as %s>::%s" % (rty, tr, meth)
                     if self.prog.has(cand):
                         args = [recv] + [self.ev(a, env, bind, depth) for a in t[2][1:]]
                         return self.call(cand, args, depth + 1)
